@@ -296,6 +296,14 @@ T = [
      "                let case = self.test_case(feat, rule, sc, &events, dur);", "                let case = self.test_case(feat, None, sc, &events, dur);\n                let _ = rule;"),
     ("c14_junit_suite_not_added_to_report", "C14/R8", "src/writer/junit.rs",
      "                    self.report.add_testsuite(suite);", "                    let _ = suite;"),
+    ("c14_terminal_skipped_in_ok_style", "C14/R9", "src/writer/basic.rs",
+     "        self.clear_last_lines_if_term_present()?;\n        self.output.write_line(self.styles.skipped(format!(\n            \"{indent}?  {}{}{}{}\\n\\\n             {indent}   Step skipped: {}:{}:{}\",\n            step.keyword,\n            step.value,\n            step.docstring\n                .as_ref()\n                .and_then(|doc| self.verbosity.shows_docstring().then(|| {\n                    format_str_with_indent(\n                        doc,\n                        self.indent.saturating_sub(3) + 3,",
+     "        self.clear_last_lines_if_term_present()?;\n        self.output.write_line(self.styles.ok(format!(\n            \"{indent}?  {}{}{}{}\\n\\\n             {indent}   Step skipped: {}:{}:{}\",\n            step.keyword,\n            step.value,\n            step.docstring\n                .as_ref()\n                .and_then(|doc| self.verbosity.shows_docstring().then(|| {\n                    format_str_with_indent(\n                        doc,\n                        self.indent.saturating_sub(3) + 3,"),
+    ("c14_terminal_bg_skipped_prints_pending_line", "C14/R9", "src/writer/basic.rs",
+     "                self.bg_step_skipped(feat, bg)?;", "                let _ = feat;\n                self.bg_step_started(bg)?;"),
+    ("c14_terminal_hook_passed_prints_failure", "C14/R9", "src/writer/basic.rs",
+     "            Scenario::Hook(_, Hook::Passed) => {\n                self.indent = self.indent.saturating_sub(4);",
+     "            Scenario::Hook(_, Hook::Passed) => {\n                self.emit_log(\"hook passed\")?;\n                self.indent = self.indent.saturating_sub(4);"),
     # ---- C02
     ("c02_after_events_before_failed", "C02/R5", B,
      "            if let Some(exec_error) = result.err() {\n                self.emit_failed_events(\n                    feature.clone(),\n                    rule.clone(),\n                    scenario.clone(),\n                    world.clone(),\n                    exec_error,\n                    retry_num,\n                );\n            }\n\n            self.emit_after_hook_events(\n                feature.clone(),\n                rule.clone(),\n                scenario.clone(),\n                world,\n                after_hook_meta,\n                after_hook_error,\n                retry_num,\n            );",
